@@ -250,6 +250,7 @@ crawler_mod.json = _UntracedJSON
 expirer.json = _UntracedJSON
 crawler_mod.FilePath = FakeFilePath
 crawler_mod.fileutil = NS(move_into_place=_move_into_place)
+expirer.fileutil = crawler_mod.fileutil      # the history file is also written as *.tmp + move_into_place (atomic on the in-memory disk)
 crawler_mod.os = _FakeOS()
 crawler_mod.reactor = _Reactor()
 crawler_mod.time = _Clock()
